@@ -9,6 +9,7 @@ import (
 	"io"
 	"net"
 	"net/http"
+	"sort"
 	"strconv"
 	"sync"
 	"time"
@@ -32,7 +33,13 @@ const (
 	Redir308Same  Step = "308-same-host"
 	Redir303Same  Step = "303-same-host"
 	Redir301Other Step = "301-other-host"
+	// ChallengeEarly answers 401 Negotiate without reading the request body first (a server that decides on the headers
+	// alone; with "Expect: 100-continue" the client then never sends the body of that attempt)
+	ChallengeEarly Step = "401-negotiate-early"
 )
+
+// IsChallenge reports whether a step is a bare Negotiate challenge.
+func (s Step) IsChallenge() bool { return s == Challenge || s == ChallengeEarly }
 
 // Alphabet lists the seven basic steps.
 var Alphabet = []Step{OK, Challenge, Reject, Basic, RedirSame, RedirOther, Error500}
@@ -104,6 +111,7 @@ type Request struct {
 	Proto            string
 	Header           http.Header
 	Body             []byte
+	Unread           bool   // the server answered without reading the body (ChallengeEarly)
 	BodyErr          string // error while reading the body ("" = read to EOF)
 	ContentLength    int64
 	TransferEncoding []string
@@ -127,10 +135,11 @@ type host struct {
 type Server struct {
 	Script Script
 
-	mu    sync.Mutex
-	hosts []*host
-	reqs  []Request
-	wg    sync.WaitGroup
+	mu      sync.Mutex
+	hosts   []*host
+	reqs    []Request
+	arrived int
+	wg      sync.WaitGroup
 }
 
 // HostSpec describes one listener: the loopback address to bind (port chosen by the system) and
@@ -201,16 +210,25 @@ func (s *Server) Count() int {
 func ReplyBodyFor(seq int, step Step) string { return fmt.Sprintf("reply %d: %s\n", seq, step) }
 
 func (s *Server) handle(idx int, w http.ResponseWriter, r *http.Request) {
-	// read the whole body before deciding anything (early replies would make capture timing-dependent)
-	body, berr := io.ReadAll(io.LimitReader(r.Body, 64<<20))
-	rec := Request{Host: idx, Method: r.Method, RequestURI: r.RequestURI, HostHeader: r.Host, Proto: r.Proto, Header: r.Header.Clone(),
-		Body: body, ContentLength: r.ContentLength, TransferEncoding: append([]string{}, r.TransferEncoding...), RemoteAddr: r.RemoteAddr}
-	if berr != nil {
-		rec.BodyErr = berr.Error()
+	// the sequence number is given on arrival; the whole body is read before the reply (early replies would make the
+	// capture timing-dependent) unless the step says otherwise
+	s.mu.Lock()
+	s.arrived++
+	seq := s.arrived
+	s.mu.Unlock()
+	step, over := s.Script.At(seq)
+	rec := Request{Seq: seq, Host: idx, Method: r.Method, RequestURI: r.RequestURI, HostHeader: r.Host, Proto: r.Proto, Header: r.Header.Clone(),
+		ContentLength: r.ContentLength, TransferEncoding: append([]string{}, r.TransferEncoding...), RemoteAddr: r.RemoteAddr}
+	if step == ChallengeEarly && !over {
+		rec.Unread = true
+	} else {
+		body, berr := io.ReadAll(io.LimitReader(r.Body, 64<<20))
+		rec.Body = body
+		if berr != nil {
+			rec.BodyErr = berr.Error()
+		}
 	}
 	s.mu.Lock()
-	rec.Seq = len(s.reqs) + 1
-	step, over := s.Script.At(rec.Seq)
 	rec.Step, rec.OverBound = step, over
 	h := w.Header()
 	h.Set("Content-Type", "text/plain")
@@ -218,7 +236,7 @@ func (s *Server) handle(idx int, w http.ResponseWriter, r *http.Request) {
 	switch step {
 	case OK:
 		rec.Status = 200
-	case Challenge:
+	case Challenge, ChallengeEarly:
 		rec.Status = 401
 		h.Set("WWW-Authenticate", "Negotiate")
 	case Reject:
@@ -241,6 +259,7 @@ func (s *Server) handle(idx int, w http.ResponseWriter, r *http.Request) {
 	rec.ReplyBody = ReplyBodyFor(rec.Seq, step)
 	rec.ReplyHeader = h.Clone()
 	s.reqs = append(s.reqs, rec)
+	sort.Slice(s.reqs, func(i, j int) bool { return s.reqs[i].Seq < s.reqs[j].Seq })
 	s.mu.Unlock()
 	h.Set("Content-Length", strconv.Itoa(len(rec.ReplyBody)))
 	w.WriteHeader(rec.Status)
